@@ -13,6 +13,7 @@ if "--isolated" in sys.argv:
     os.makedirs(ISO, exist_ok=True)
     subprocess.run(f"rsync -a --delete --exclude target --exclude .git /repo/ {ISO}/repo/ && rsync -a --delete --exclude target --exclude replays --exclude .git --exclude .work {V}/ {ISO}/verif/", shell=True, check=True)
     subprocess.run(["sed", "-i", f's|path = "/repo/rasn-compiler"|path = "{ISO}/repo/rasn-compiler"|', f"{ISO}/verif/harness/Cargo.toml"], check=True)
+    subprocess.run(["sed", "-i", f's|path = "/repo/rasn-compiler-derive"|path = "{ISO}/repo/rasn-compiler-derive"|', f"{ISO}/verif/macrocheck/ma/Cargo.toml"], check=True)
     V = f"{ISO}/verif"
     REPO = f"{ISO}/repo"
     os.environ["VERIF_REPO"] = REPO
